@@ -25,7 +25,7 @@ func (f Fault) String() string {
 		return fmt.Sprintf("truncate %s to %d", f.Path, f.N)
 	case "extend", "fill":
 		return fmt.Sprintf("%s %s by %d", f.Kind, f.Path, f.N)
-	case "tolink", "retarget":
+	case "tolink", "retarget", "hardlink":
 		return fmt.Sprintf("%s %s -> %s", f.Kind, f.Path, f.Dest)
 	}
 	return f.Kind + " " + f.Path
@@ -37,6 +37,7 @@ type FaultOpts struct {
 	Delete    bool
 	KindSwap  bool // entries replaced by another kind (may hide whole subtrees)
 	Links     bool // retarget
+	Special   bool // with KindSwap: a named pipe in place of a file, a file replaced by a hard link to another file of the build
 	MaxFaults int
 }
 
@@ -101,6 +102,9 @@ func GenFaults(rt *rapid.T, t Tree, o FaultOpts) []Fault {
 			}
 			if o.KindSwap {
 				kinds = append(kinds, "todir", "tolink")
+				if o.Special {
+					kinds = append(kinds, "tofifo", "hardlink")
+				}
 			}
 		case KDir:
 			if o.KindSwap {
@@ -132,6 +136,17 @@ func GenFaults(rt *rapid.T, t Tree, o FaultOpts) []Fault {
 			if f.N < 1 {
 				f.N = 1
 			}
+		case "hardlink":
+			var others []string
+			for _, q := range t.Files() {
+				if q != p {
+					others = append(others, q)
+				}
+			}
+			if len(others) == 0 {
+				continue
+			}
+			f.Dest = rapid.SampledFrom(others).Draw(rt, "hardlinkto")
 		case "tolink":
 			f.Dest = rapid.SampledFrom([]string{"nowhere", "../x", "f0", "a", ".", "..", "../c", "c", "b", "../a"}).Draw(rt, "faultdest")
 		case "retarget":
@@ -164,6 +179,13 @@ func ApplyFaults(t Tree, fs []Fault) (Tree, []Fault) {
 		e, ok := d[f.Path]
 		if !ok {
 			continue
+		}
+		switch f.Kind {
+		case "flip", "weakcollide", "truncate", "extend", "fill", "empty", "reseed":
+			// the two names of a hard-linked file keep the content they had when linked
+			if e.HardTo != "" || d.isHardLinkTarget(f.Path) {
+				continue
+			}
 		}
 		switch f.Kind {
 		case "flip":
@@ -228,6 +250,27 @@ func ApplyFaults(t Tree, fs []Fault) (Tree, []Fault) {
 		case "tolink":
 			d.RemoveSubtree(f.Path)
 			d[f.Path] = &Entry{Kind: KLink, Dest: f.Dest}
+		case "tofifo":
+			if e.Kind != KFile {
+				continue
+			}
+			d[f.Path] = &Entry{Kind: KFifo}
+		case "hardlink":
+			te, ok := d[f.Dest]
+			if e.Kind != KFile || !ok || te.Kind != KFile || te.HardTo != "" || f.Dest == f.Path {
+				continue
+			}
+			// nothing may already be linked to this path
+			linked := false
+			for _, oe := range d {
+				if oe.HardTo == f.Path {
+					linked = true
+				}
+			}
+			if linked {
+				continue
+			}
+			d[f.Path] = &Entry{Kind: KFile, Data: te.Data, Exec: te.Exec, HardTo: f.Dest}
 		case "retarget":
 			if e.Kind != KLink || e.Dest == f.Dest {
 				continue
@@ -281,4 +324,13 @@ func WeakCollide(data []byte, off int) ([]byte, bool) {
 		}
 	}
 	return nil, false
+}
+
+func (t Tree) isHardLinkTarget(p string) bool {
+	for _, e := range t {
+		if e.HardTo == p {
+			return true
+		}
+	}
+	return false
 }
